@@ -75,7 +75,25 @@ func randEscape(c *C, valid bool) string {
 			return fmt.Sprintf(`\u%04X`, []int{0, 0x1f, 0x20, 0x22, 0x5c, 0x7f, 0x80, 0xd7ff, 0xe000, 0xfffd, 0xffff}[c.Rand.Intn(11)])
 		}
 	}
-	switch c.Rand.Intn(9) {
+	switch c.Rand.Intn(11) {
+	case 9, 10: // a well-formed \uXXXX (or the low half of a pair) with ONE hex position replaced by an arbitrary non-hex byte
+		e := []byte(fmt.Sprintf(`\u%04x`, c.Rand.Intn(0xd800)))
+		if c.Rand.Intn(3) == 0 {
+			e = []byte(fmt.Sprintf(`\u%04x\u%04x`, 0xd800+c.Rand.Intn(0x400), 0xdc00+c.Rand.Intn(0x400)))
+		}
+		pos := len(e) - 1 - c.Rand.Intn(4)
+		for {
+			b := byte(c.Rand.Intn(256))
+			if c.Rand.Intn(2) == 0 {
+				b = byte(c.Rand.Intn(0x40)) // control bytes, punctuation, the neighbours of '0'..'9'
+			}
+			isHex := b >= '0' && b <= '9' || b >= 'a' && b <= 'f' || b >= 'A' && b <= 'F'
+			if !isHex && b != '"' && b != '\\' {
+				e[pos] = b
+				break
+			}
+		}
+		return string(e)
 	case 0:
 		return `\` + string("aevx0'uU \n"[c.Rand.Intn(10)])
 	case 1: // lone high surrogate
